@@ -453,6 +453,8 @@ pub fn gen(prop: &str, seed: u64, index: u64, _tier: Tier) -> Case {
     for i in 0..n {
         let d = DIRS[prng.below(DIRS.len())];
         let name = gen::source_name(&mut prng, i, true);
+        // a name that begins with a dot is a name like any other (`.f1.txt.txtpp` builds `.f1.txt`)
+        let name = if prng.chance(1, 12) { format!(".{name}") } else { name };
         paths.push(if d.is_empty() { name } else { format!("{d}/{name}") });
     }
     let outs: Vec<String> = paths.iter().map(|s| crate::names::out_path(s).unwrap()).collect();
